@@ -372,6 +372,7 @@ impl ShortTermCredentialClient {
         final(self).validator.is_reliable == old(self).validator.is_reliable,
         // requests are never accepted
         msg.sclass() is Request ==> r == Err::<(), IntegrityError>(IntegrityError::Discarded) && *final(self) == *old(self),
+        msg.sclass() is Indication ==> (r is Ok || r->Err_0 is Discarded),
         (!(msg.sclass() is Request) && st_both(msg)) ==> r == Err::<(), IntegrityError>(IntegrityError::Discarded) && *final(self) == *old(self),
         (!(msg.sclass() is Request) && !st_both(msg)) ==> {
             let c = st_chosen(old(self).integrity, msg.attrs());
@@ -1103,6 +1104,8 @@ impl CredentialMechanismClient {
                 && (final(self).violated() == old(self).violated()
                     || (message.sclass() != MessageClass::Indication
                         && final(self).violated() == old(self).violated().insert(message.sid()))),
+            // an indication is either accepted or silently discarded: no verdict about a request can come out of it
+            message.sclass() is Indication ==> (r is Ok || r->Err_0 is Discarded),
 //@end
 //@item stun_agent :: mod client > impl CredentialMechanismClient > fn signal_protection_violated_on_timeout
 //@tags C17 C07 C05 C13
